@@ -665,7 +665,14 @@ func (r *simRun) oldPolka() error {
 			}
 		}
 	}
+	// the adversary prevotes nil too; together with the non-victims' prevotes this is a complete nil polka
+	// that does not need the victims' own votes (a node drops the votes of rounds more than one below
+	// its own, except those of its lock round, so a polka that arrives "late" is counted from scratch)
+	var byzNilPV []int
 	for _, b := range s.byzantine() {
+		if m := r.byzVote(b, h, round, consensus.VoteTypePrevote, nil); m != nil {
+			byzNilPV = append(byzNilPV, m.id)
+		}
 		r.byzVote(b, h, round, consensus.VoteTypePrecommit, nil)
 	}
 	for pass := 0; pass < 3; pass++ {
@@ -697,22 +704,44 @@ func (r *simRun) oldPolka() error {
 	if err := r.splitLockOpt(&splitOpt{L: L, C: []int{committer}, noPhase2: true}); err != nil {
 		return err
 	}
-	// the old polka arrives at the victims
+	// the old polka arrives at the victims: either while they are still in their lock round or after
+	// they moved on to a later round (their round-r vote set is gone by then and is rebuilt from the
+	// late votes alone)
+	late := rapid.IntRange(0, 3).Draw(rt, "oldPolkaAfterNextRound") != 0
 	for _, v := range victims {
 		if !s.nodes[v].alive {
 			continue
 		}
+		if late {
+			for i := 0; i < 2; i++ {
+				st := s.nodes[v].state()
+				if st.Height != h || st.Round > round+1 || !st.HasTimer {
+					break
+				}
+				if err := s.timeout(v); err != nil {
+					return err
+				}
+			}
+			if st := s.nodes[v].state(); st.Height == h && st.Round > round+1 {
+				r.counts["oldPolka.lateAtLaterRound"]++
+			}
+		}
+		for _, id := range byzNilPV {
+			if err := s.deliver(id, v); err != nil {
+				return err
+			}
+		}
 		if err := s.flushTo(v, isPV); err != nil {
 			return err
-		}
-		for _, b := range s.byzantine() {
-			_ = b
 		}
 	}
 	s.logf("oldPolka(h%d r%d victims=%v committer=%d)", h, round, victims, committer)
 	r.counts["oldPolka.done"]++
 	skip := map[int]bool{committer: true}
-	rounds := rapid.IntRange(1, 3).Draw(rt, "rounds")
+	rounds := rapid.IntRange(1, 4).Draw(rt, "rounds")
+	if late && rounds < 3 {
+		rounds = 3 // give every kind of proposer (locked, unlocked, Byzantine) a turn
+	}
 	for k := 1; k <= rounds; k++ {
 		if err := r.supportRound(h, round+1+int32(k), skip); err != nil {
 			return err
@@ -1207,6 +1236,9 @@ func simRunCase(rt *rapid.T, mode string, profile string, rec *ev.Rec) {
 	}
 	if r.counts["oldPolka.stuck"] > 0 {
 		labels = append(labels, "oldPolkaStuck")
+	}
+	if r.counts["oldPolka.lateAtLaterRound"] > 0 {
+		labels = append(labels, "oldPolkaAfterVictimLeftLockRound")
 	}
 	if len(s.dsr) > 0 {
 		labels = append(labels, "doubleSignReported")
